@@ -98,7 +98,7 @@ func main() {
 		defer f.Close()
 		sc := bufio.NewScanner(f)
 		sc.Buffer(make([]byte, 1<<20), 1<<26)
-		g := &Gen{x: x, r: &rng{1}, stats: map[string]int{}}
+		g := &Gen{x: x, r: &rng{1}, stats: map[string]int{}, mid: map[string][]string{}}
 		for sc.Scan() {
 			l := sc.Text()
 			if strings.HasPrefix(l, "#") {
@@ -128,7 +128,7 @@ func main() {
 		iw := bufio.NewWriter(idx)
 		defer iw.Flush()
 		for c := *from; c < *from+*n; c++ {
-			g := &Gen{x: x, r: &rng{mixSeed(*seed, *prop, c)}, stats: rep.Stats}
+			g := &Gen{x: x, r: &rng{mixSeed(*seed, *prop, c)}, stats: rep.Stats, mid: map[string][]string{}}
 			g.do(fmt.Sprintf("case %d", c))
 			viol, known, nontrivial := st.run(g, c)
 			first := lineNo + 1
